@@ -41,4 +41,23 @@ def sum16Acc : Nat → List UInt8 → Nat
 /-- `CalcCheckSum16` -/
 def sum16 (data : List UInt8) : UInt16 := ~~~ (UInt16.ofNat (sum16Acc 0 data))
 
+/-! ### chained calls (round 8): a sequence of calls where each seed is derived from the previous RESULT -/
+
+/-- how the seed of the next call is derived from the previous call's result -/
+inductive Link | prev | notPrev | zero | ones
+  deriving DecidableEq, Repr
+
+def Link.seed32 (l : Link) (r : UInt32) : UInt32 :=
+  match l with | .prev => r | .notPrev => ~~~ r | .zero => 0 | .ones => 0xffffffff
+def Link.seed16 (l : Link) (r : UInt16) : UInt16 :=
+  match l with | .prev => r | .notPrev => ~~~ r | .zero => 0 | .ones => 0xffff
+
+/-- `r1 = CalcCrc32(d1, seed); r2 = CalcCrc32(d2, link2(r1)); …`: all results in call order -/
+def seq32 (seed : UInt32) (d : List UInt8) : List (Link × List UInt8) → List UInt32
+  | [] => [crc32 d seed]
+  | (l, d') :: r => crc32 d seed :: seq32 (l.seed32 (crc32 d seed)) d' r
+def seq16 (seed : UInt16) (d : List UInt8) : List (Link × List UInt8) → List UInt16
+  | [] => [crc16 d seed]
+  | (l, d') :: r => crc16 d seed :: seq16 (l.seed16 (crc16 d seed)) d' r
+
 end Tbox.C19.Crc
